@@ -29,7 +29,8 @@ def slotNames : List String :=
    "fantasy_mean_cache", "fantasy_covar_cache", "cholesky_factor", "prior_distribution_memo",
    "variational_distribution_memo", "pseudo_points_memo", "amortized_exact_gp",
    "_cached_kernel_mat", "_cached_kernel_inv_root",
-   "covar_cache[fast_pred_samples]", "fantasy_covar_cache[fast_pred_samples]"]
+   "covar_cache[fast_pred_samples]", "fantasy_covar_cache[fast_pred_samples]",
+   "mean_cache[mask]", "mean_cache[fill]"]
 
 def sStrat : Nat := 0
 def sMean : Nat := 1
@@ -50,11 +51,17 @@ def sCovarS : Nat := 14
 /-- `fantasy_covar_cache` holding `(inside_root, None)` -/
 def sFantCovarS : Nat := 15
 
+/-- `mean_cache` entries of the default strategy computed under `observation_nan_policy` "mask" / "fill" (the memo key
+`(name, args, kwargs)` contains the policy: one entry per policy, all live side by side) -/
+def sMeanMask : Nat := 16
+def sMeanFill : Nat := 17
+
 /-- names living in a strategy object's `_memoize_cache` -/
-def isMemo (s : Nat) : Bool := (1 ≤ s && s ≤ 11) || s == 14 || s == 15
+def isMemo (s : Nat) : Bool := (1 ≤ s && s ≤ 11) || (14 ≤ s && s ≤ 17)
 
 /-- the memo *name* a slot belongs to (the two representations of one name share the `@cached` declaration) -/
-def baseSlot (s : Nat) : Nat := if s == sCovarS then sCovar else if s == sFantCovarS then sFantCovar else s
+def baseSlot (s : Nat) : Nat :=
+  if s == sCovarS then sCovar else if s == sFantCovarS then sFantCovar else if s == sMeanMask || s == sMeanFill then sMean else s
 
 /-- slot holding the representation of `covar_cache` / `fantasy_covar_cache` that a call under
 `fast_pred_samples = fps` asks for -/
@@ -64,11 +71,12 @@ def fantCovarSlot (fps : Bool) : Nat := if fps then sFantCovarS else sFantCovar
 /-- prediction-relevant settings; ids = bit positions of a settings cell (`Cell.ofMask`) -/
 def settingNames : List String :=
   ["fast_pred_var", "fast_pred_samples", "lazily_evaluate_kernels", "max_cholesky_size", "detach_test_caches",
-   "skip_posterior_variances", "max_eager_kernel_size", "trace_mode"]
+   "skip_posterior_variances", "max_eager_kernel_size", "trace_mode", "observation_nan_policy"]
 
 def gFastPredVar : Nat := 0
 def gFastPredSamples : Nat := 1
 def gDetach : Nat := 4
+def gNanPolicy : Nat := 8
 
 def classNames : List String :=
   ["Module", "ExactGP", "DefaultPredictionStrategy", "InterpolatedPredictionStrategy", "RFFPredictionStrategy",
@@ -112,6 +120,10 @@ structure Cell where
   trace : Bool := false
   /-- with `noCholesky`: rank-2 Lanczos root behind `fast_pred_var`, resp. CG stopped after two iterations -/
   degraded : Bool := false
+  /-- `observation_nan_policy("mask")` -/
+  nanMask : Bool := false
+  /-- `observation_nan_policy("fill")` (wins over `nanMask`; neither = the default "ignore") -/
+  nanFill : Bool := false
   deriving DecidableEq, Repr
 
 namespace Cell
@@ -131,18 +143,28 @@ def traceMode : Cell := { trace := true }
 def degradedRoot : Cell := { fpv := true, noCholesky := true, degraded := true }
 /-- `max_cholesky_size(0)` + CG stopped after two iterations -/
 def degradedCG : Cell := { noCholesky := true, degraded := true }
+def nanPolicyMask : Cell := { nanMask := true }
+def nanPolicyFill : Cell := { nanFill := true }
 
-/-- bit `i` of the mask = setting `i` of `settingNames`; bit 8 = `degraded` -/
+/-- `settings.observation_nan_policy.value() != "ignore"` -/
+def nan (c : Cell) : Bool := c.nanMask || c.nanFill
+
+/-- bit `i` of the mask = setting `i` of `settingNames` (i < 8); bit 8 = `degraded`; bits 9, 10 = nan policy mask / fill -/
 def ofMask (m : Nat) : Cell :=
   { fpv := m.testBit 0, fps := m.testBit 1, eager := m.testBit 2, noCholesky := m.testBit 3, keepGraph := m.testBit 4,
-    skip := m.testBit 5, lazySlice := m.testBit 6, trace := m.testBit 7, degraded := m.testBit 8 }
+    skip := m.testBit 5, lazySlice := m.testBit 6, trace := m.testBit 7, degraded := m.testBit 8,
+    nanMask := m.testBit 9, nanFill := m.testBit 10 }
 
 def bools : List Bool := [false, true]
 
-/-- every settings cell (512) -/
+/-- every settings cell (2048) -/
 def all : List Cell :=
   bools.flatMap fun a => bools.flatMap fun b => bools.flatMap fun c => bools.flatMap fun d => bools.flatMap fun e =>
-  bools.flatMap fun f => bools.flatMap fun g => bools.flatMap fun h => bools.flatMap fun i => [⟨a, b, c, d, e, f, g, h, i⟩]
+  bools.flatMap fun f => bools.flatMap fun g => bools.flatMap fun h => bools.flatMap fun i => bools.flatMap fun j =>
+  bools.flatMap fun k => [⟨a, b, c, d, e, f, g, h, i, j, k⟩]
+
+/-- slot of the `mean_cache` entry a call of the default / RFF / SGPR strategy reads: keyed on the nan policy -/
+def meanSlot (c : Cell) : Nat := if c.nanFill then 17 else if c.nanMask then 16 else 1
 
 end Cell
 
@@ -212,6 +234,19 @@ structure AttrCache where
   readEvalOnly : Bool
   deriving DecidableEq, Repr
 
+/-- an attribute `self.x` assigned by a method other than `__init__` -/
+structure InstAttr where
+  cls : Nat
+  /-- 1 = `_last_test_train_covar` (the test-train operator handed to the `covar_cache` body: only its train-side
+      interpolation is used), 0 = any other name -/
+  known : Nat
+  /-- the assignment sits under a test of the attribute itself (`getattr(self, x, None) is None`, `hasattr`,
+      `self.x is None`): compute-if-absent, i.e. an ad-hoc cache -/
+  selfGuarded : Bool
+  /-- some method reads it on a path on which it was not assigned before in the same call -/
+  readBeforeWrite : Bool
+  deriving DecidableEq, Repr
+
 structure ClassInfo where
   id : Nat
   /-- base classes inside the vocabulary, nearest first -/
@@ -251,9 +286,11 @@ structure Table where
   ctorClones : List Nat
   /-- what `exact_prediction` of a strategy class (class id) does to the memo table, in order, derived from the
       call graph `exact_prediction → exact_predictive_mean / exact_predictive_covar → @cached names,
-      pop_from_cache, super()` and the settings guards on the way.  arguments: class, `self.uses_wiski`,
-      `observation_nan_policy != "ignore"`, settings cell -/
-  access : Nat → Bool → Bool → Cell → List MemoOp
+      pop_from_cache, super()` and the settings guards on the way.  arguments: class, `self.uses_wiski`, settings cell -/
+  access : Nat → Bool → Cell → List MemoOp
+  /-- attributes of `self` assigned outside `__init__` by the prediction / variational strategies (i.e. state that
+      lives outside `_memoize_cache` and that no invalidation point drops) -/
+  instAttrs : List InstAttr
   /-- what `get_fantasy_strategy` of a strategy class reads from the memo table of the source strategy -/
   fantasyAccess : Nat → Cell → List MemoOp
   /-- memo names `get_fantasy_strategy` puts into the new strategy object (`add_to_cache(fant_strat, name, …)`) -/
@@ -348,9 +385,9 @@ def varClass : Kind → Nat
 
 /-- every slot a model of this kind can ever hold -/
 def slotsOf : Kind → List Nat
-  | .exact => [sStrat, sMean, sCovar]
-  | .kiss => [sStrat, sMean, sCovar, sCovarS, sInterpInner, sInterpResp, sKMat]
-  | .sgpr => [sStrat, sMean, sCovar, sKMat, sKInvRoot]
+  | .exact => [sStrat, sMean, sCovar, sMeanMask, sMeanFill]
+  | .kiss => [sStrat, sMean, sCovar, sCovarS, sInterpInner, sInterpResp, sKMat, sMeanMask, sMeanFill]
+  | .sgpr => [sStrat, sMean, sCovar, sKMat, sKInvRoot, sMeanMask, sMeanFill]
   | .svgp => [sChol, sPrior, sVarDist, sPseudo, sAmortized]
   | .usvgp => [sChol, sPrior, sVarDist, sPseudo, sAmortized]
 
@@ -419,30 +456,30 @@ def effReads (ops : List MemoOp) (st : Store) : List Nat :=
 
 /-- **Specification** of `Table.access` (hand-written; `Props/C03.lean` proves the generated function equal to it
 on every class, flag and settings cell).
-  * default strategy: `mean_cache` always; `covar_cache` iff `fast_pred_var` and neither `skip_posterior_variances`
-    nor a non-default `observation_nan_policy`;
+  * default strategy: the `mean_cache` entry of the current `observation_nan_policy` always; `covar_cache` iff
+    `fast_pred_var` and neither `skip_posterior_variances` nor a non-default `observation_nan_policy`;
   * interpolated strategy (KISS-GP): `mean_cache` (`fantasy_mean_cache` on a WISKI fantasy strategy) always;
     `covar_cache` (`fantasy_covar_cache`) iff (`fast_pred_var` or `fast_pred_samples`) and not
     `skip_posterior_variances` — in the representation `fast_pred_samples` asks for, the other one being popped;
   * RFF strategy: `mean_cache`; `covar_cache` unless `skip_posterior_variances`;
   * SGPR strategy: `mean_cache` and `covar_cache` always. -/
-def accessModel (cls : Nat) (wiski nan : Bool) (c : Cell) : List MemoOp :=
-  if cls == cSGPR then [.read sMean, .read sCovar]
-  else if cls == cRFF then .read sMean :: (if c.skip then [] else [.read sCovar])
+def accessModel (cls : Nat) (wiski : Bool) (c : Cell) : List MemoOp :=
+  if cls == cSGPR then [.read c.meanSlot, .read sCovar]
+  else if cls == cRFF then .read c.meanSlot :: (if c.skip then [] else [.read sCovar])
   else if cls == cInterp then
     .read (if wiski then sFantMean else sMean) ::
       (if (c.fpv || c.fps) && !c.skip then
         [if wiski then .readKeyed (fantCovarSlot c.fps) (fantCovarSlot (!c.fps)) true
          else .readKeyed (covarSlot c.fps) (covarSlot (!c.fps)) true]
        else [])
-  else if cls == cDefault then .read sMean :: (if c.fpv && !c.skip && !nan then [.read sCovar] else [])
+  else if cls == cDefault then .read c.meanSlot :: (if c.fpv && !c.skip && !c.nan then [.read sCovar] else [])
   else []
 
 /-- specification of `Table.fantasyAccess`: the default strategy updates `mean_cache` (the root decompositions are
 memoised on the train-train operator, not on the strategy); the interpolated strategy updates the two WISKI caches -/
-def fantasyAccessModel (cls : Nat) (_c : Cell) : List MemoOp :=
+def fantasyAccessModel (cls : Nat) (c : Cell) : List MemoOp :=
   if cls == cInterp then [.read sInterpInner, .read sInterpResp]
-  else if cls == cDefault then [.read sMean]
+  else if cls == cDefault then [.read c.meanSlot]
   else []
 
 /-- specification of `Table.fantasyBorn`: memo names the fantasy strategy is born with -/
@@ -454,10 +491,9 @@ def fantasyBornModel (cls : Nat) : List Nat :=
 /-- strategy classes of the vocabulary -/
 def strategyClasses : List Nat := [cDefault, cInterp, cRFF, cSGPR]
 
-/-- memo slots read by `exact_prediction` of a strategy class under a settings cell, in a store where nothing is
-live (`observation_nan_policy` stays at its default `"ignore"` in the settings alphabet) -/
+/-- memo slots read by `exact_prediction` of a strategy class under a settings cell, in a store where nothing is live -/
 def memoReads (T : Table) (cls : Nat) (c : Cell) : List Nat :=
-  effReads (T.access cls false false c) (fun _ => none)
+  effReads (T.access cls false c) (fun _ => none)
 
 /-- memo names read by a (non-prior) call of a variational strategy -/
 def varReads (k : Kind) (training : Bool) (c : Cell) : List Nat :=
@@ -504,7 +540,7 @@ def withStrategy (T : Table) (s : State) (c : Cell) : State :=
 def callPosterior (T : Table) (s : State) (c : Cell) : State × Answer :=
   let s0 := withStrategy T s c
   let cls := stratClassOf s0.kind s0.stratDefault
-  let ops := T.access cls false false c
+  let ops := T.access cls false c
   let st0 := clearBy ((popped ops).map .delAttr) s0.store
   let reads := effReads ops st0
   let attrs := attrsActive T s0.kind false
@@ -699,10 +735,10 @@ def Answer.current (a : Answer) : Bool :=
 /-! ### Executable versions of the invariant (used by the driver's exhaustive enumeration) -/
 
 def Inv.supportB (s : State) : Bool :=
-  (List.range 16).all fun sl => (s.store sl).isNone || (slotsOf s.kind).contains sl
+  (List.range 18).all fun sl => (s.store sl).isNone || (slotsOf s.kind).contains sl
 
 def Inv.freshB (s : State) : Bool :=
-  s.training || (List.range 16).all fun sl => match s.store sl with
+  s.training || (List.range 18).all fun sl => match s.store sl with
     | some e => e.freshAt sl s.pv s.dv
     | none => true
 
